@@ -192,7 +192,17 @@ def step (st : St) (toks : List String) : St × String :=
           let old := st.net.nodes p
           let s' := net'.nodes p
           let news := s'.out.drop old.out.length
-          (st', s!"n{p} " ++ showState (nc.node p) st.ids s' ++ " |" ++ showNew news st.net.log.length)
+          -- a node that decides in this op also shows the commit it stored (MakeCommit) and whether
+          -- VerifyCommit accepts it
+          let commit :=
+            if news.any (fun o => match o with | .decide _ _ => true | _ => false) then
+              match seenCommit (nc.node p) s' with
+              | some flags =>
+                " commit(" ++ String.join (flags.map fun f => if f = 2 then "C" else if f = 3 then "N" else "A") ++
+                  "," ++ (if commitVerifies (nc.node p) flags then "ok" else "bad") ++ ")"
+              | none => " commit(-,bad)"
+            else ""
+          (st', s!"n{p} " ++ showState (nc.node p) st.ids s' ++ " |" ++ showNew news st.net.log.length ++ commit)
         | none =>
           match op with
           | .byz m => (st', s!"+{st.net.log.length} " ++ showMsg m)
